@@ -83,38 +83,45 @@ theorem isort_eq_self {a : List Int} (h : a.Pairwise (· ≤ ·)) : isort a = a 
 
 /-! ### replaceAll -/
 
+theorem replaceAll_eq (x y : Int) (l : List Int) : replaceAll x y l = l.map (fun t => if t = x then y else t) := by
+  simp [replaceAll]
+
+theorem replaceAll_cons (x y a : Int) (l : List Int) :
+    replaceAll x y (a :: l) = (if a = x then y else a) :: replaceAll x y l := by
+  simp [replaceAll]
+
 theorem count_replaceAll_new (x y : Int) (l : List Int) (h : x ≠ y) :
     (replaceAll x y l).count y = l.count x + l.count y := by
   induction l with
   | nil => rfl
   | cons a as ih =>
-    simp only [replaceAll, List.map_cons] at ih ⊢
+    rw [replaceAll_cons, List.count_cons, List.count_cons, List.count_cons, ih]
     by_cases hax : a = x
     · subst hax
       have : ¬ a = y := h
-      simp [List.count_cons, ih, this]; omega
+      simp [this]; omega
     · by_cases hay : a = y
-      · subst hay; simp [List.count_cons, ih, hax]; omega
-      · simp [List.count_cons, ih, hax, hay]
+      · subst hay; simp [hax]; omega
+      · simp [hax, hay]
 
 theorem count_replaceAll_old (x y : Int) (l : List Int) (h : x ≠ y) : (replaceAll x y l).count x = 0 := by
-  rw [List.count_eq_zero]
-  simp only [replaceAll, List.mem_map, not_exists, not_and]
+  rw [List.count_eq_zero, replaceAll_eq]
+  simp only [List.mem_map, not_exists, not_and]
   intro a _
   by_cases hax : a = x
-  · simp [hax]; exact fun e => h e.symm
-  · simp [hax]; exact hax
+  · simp only [hax, if_true]; exact fun e => h e.symm
+  · simp [hax]
 
 theorem count_replaceAll_other (x y z : Int) (l : List Int) (hx : z ≠ x) (hy : z ≠ y) :
     (replaceAll x y l).count z = l.count z := by
   induction l with
   | nil => rfl
   | cons a as ih =>
-    simp only [replaceAll, List.map_cons] at ih ⊢
+    rw [replaceAll_cons, List.count_cons, List.count_cons, ih]
     by_cases hax : a = x
     · subst hax
-      simp [List.count_cons, ih, hy.symm, hx.symm]
-    · simp [List.count_cons, ih, hax]
+      simp [hy.symm, hx.symm]
+    · simp [hax]
 
 theorem length_replaceAll (x y : Int) (l : List Int) : (replaceAll x y l).length = l.length := by
   simp [replaceAll]
@@ -124,8 +131,7 @@ theorem replaceAll_of_notMem (x y : Int) (l : List Int) (h : x ∉ l) : replaceA
   | nil => rfl
   | cons a as ih =>
     simp only [List.mem_cons, not_or] at h
-    simp only [replaceAll, List.map_cons] at ih ⊢
-    rw [ih h.2]
+    rw [replaceAll_cons, ih h.2]
     have : ¬ a = x := fun e => h.1 e.symm
     simp [this]
 
@@ -152,14 +158,14 @@ theorem dget_eq_some_of_mem (d : List (Int × β)) (hn : (dkeys d).Nodup) {k : I
   | nil => simp at h
   | cons e es ih =>
     simp only [dkeys, List.map_cons, List.nodup_cons] at hn
-    rcases List.mem_cons.mp h with rfl | h
+    rcases List.mem_cons.mp h with rfl | h'
     · simp [dget, List.lookup]
     · have hne : ¬ k = e.1 := by
-        intro heq; apply hn.1; rw [← heq]; exact List.mem_map.mpr ⟨(k, v), h, rfl⟩
-      have : (k == e.1) = false := by simpa using hne
+        intro heq; apply hn.1; rw [← heq]; exact List.mem_map.mpr ⟨(k, v), h', rfl⟩
+      have hb : (k == e.1) = false := by simpa using hne
       obtain ⟨e1, e2⟩ := e
-      simp only [dget, List.lookup, this]
-      exact ih hn.2 h
+      simp only [dget, List.lookup, hb]
+      exact ih hn.2 h'
 
 theorem mem_of_dget_eq_some (d : List (Int × β)) {k : Int} {v : β} (h : dget d k = some v) : (k, v) ∈ d := by
   induction d with
@@ -209,10 +215,11 @@ theorem length_dpop_of_nodup (d : List (Int × β)) (hn : (dkeys d).Nodup) {k : 
         simp only [dpop]
         apply List.filter_eq_self.mpr
         intro a ha
-        have : a.1 ≠ k := fun h => hnot (h ▸ List.mem_map.mpr ⟨a, ha, rfl⟩)
-        simpa using this
-      simp [dpop, he] at this ⊢
-      rw [this]
+        have hak : a.1 ≠ k := fun h => hnot (h ▸ List.mem_map.mpr ⟨a, ha, rfl⟩)
+        simpa using hak
+      have hb : (e.1 != k) = false := by simp [he]
+      simp only [dpop, List.filter_cons, hb] at this ⊢
+      simp [this]
     · have hk' : k ∈ dkeys es := by
         rcases hk with h | h
         · exact absurd h.symm he
